@@ -133,7 +133,7 @@ def read_convolved(path):
 
 
 def write_sed_file(path, name, wav, nu, apertures, flux, err, wav_unit='um', nu_unit='Hz', ap_unit='AU',
-                   flux_unit='mJy', err_unit=None, distance_cm=None, dtype='D'):
+                   flux_unit='mJy', err_unit=None, distance_cm=None, dtype='D', hdu3_layout='standard', stellar_unit=None):
     """
     A path ending in .gz is written gzip-compressed.
     SED file per docs: HDU1 WAVELENGTH/FREQUENCY, HDU2 APERTURE, HDU3 TOTAL_FLUX / TOTAL_FLUX_ERR with one row per
@@ -161,9 +161,15 @@ def write_sed_file(path, name, wav, nu, apertures, flux, err, wav_unit='um', nu_
         fits.Column(name='APERTURE', format=dtype, unit=ap_unit if apertures is not None else 'cm',
                     array=np.array(aps, dtype=float))], name='APERTURES')
     fmt = '%d%s' % (nwav, dtype)
-    hdu3 = fits.BinTableHDU.from_columns([
-        fits.Column(name='TOTAL_FLUX', format=fmt, unit=flux_unit, array=flux),
-        fits.Column(name='TOTAL_FLUX_ERR', format=fmt, unit=err_unit or flux_unit, array=err)], name='SEDS')
+    tot = fits.Column(name='TOTAL_FLUX', format=fmt, unit=flux_unit, array=flux)
+    tot_err = fits.Column(name='TOTAL_FLUX_ERR', format=fmt, unit=err_unit or flux_unit, array=err)
+    # the documented optional columns (a stellar component), and "the order of the columns is not important"
+    star = fits.Column(name='STELLAR_FLUX', format=fmt, unit=stellar_unit or flux_unit, array=np.array(flux, dtype=float) * 0.37)
+    star_err = fits.Column(name='STELLAR_FLUX_ERR', format=fmt, unit=stellar_unit or flux_unit, array=np.array(err, dtype=float) * 0.61)
+    cols3 = {'standard': [tot, tot_err], 'stellar_last': [tot, tot_err, star, star_err],
+             'stellar_first': [star, star_err, tot, tot_err], 'err_first': [tot_err, tot],
+             'interleaved': [star, tot, star_err, tot_err]}[hdu3_layout]
+    hdu3 = fits.BinTableHDU.from_columns(cols3, name='SEDS')
     gz = path.endswith('.gz')
     plain = path[:-3] if gz else path
     fits.HDUList([hdu0, hdu1, hdu2, hdu3]).writeto(plain, overwrite=True)
